@@ -61,6 +61,8 @@ def check_normalised(raw, out, mode, eps=2.0 ** -52):
         must_zero = (hi == lo)
         # mixed precision: the library's own max - min may round to zero (or not) when the values differ in the last float32 bits
         may_zero = must_zero or float(hi - lo) <= 4 * eps * max(abs(float(hi)), abs(float(lo)))
+        if any(isinstance(v, np.float32) for v in vals) and float(hi - lo) < 2.0 ** -126:
+            may_zero = True      # below the smallest normal float32: in single precision (mixed with weak Python scalars) the range underflows
         if not must_zero and may_zero and not all_zero_out:
             return _finite_ratio_check(raw, out, mode, eps)
         factor = hi - lo if not must_zero else Q(0)
@@ -291,7 +293,13 @@ def dict_cases(draw):
                 st.one_of(st.integers(-6, 6), st.sampled_from(['1/2', '-1/2', '3/4', '-5/4', '1/8'])))
             vals.append([t, v])
     # tiny and huge magnitudes: a normaliser of 1e-14 is small, not zero
-    return {'keys': keys, 'values': vals, 'scale': draw(st.sampled_from([1, 1, 1e-14, 1e-9, 1e-30, 1e12]))}
+    scale = draw(st.sampled_from([1, 1, 1e-14, 1e-9, 1e-30, 1e12, 1e-310, 5e-324, 1e30]))
+    if scale < 1e-300:
+        # subnormal doubles: single precision cannot hold them and exact rationals below the float range have no float twin - keep
+        # the mixture within what the value types can represent (all-rational dictionaries stay exact)
+        # (integers are not scaled: next to subnormal values the true quotient would leave the float range)
+        vals = [['f64' if t in ('f32', 'i64') else ('float' if t == 'int' or (t == 'q' and uniform_t != 'q') else t), v] for t, v in vals]
+    return {'keys': keys, 'values': vals, 'scale': scale}   # down to subnormal importances (a long quiet tail of a smoothed stream ends there)
 
 
 @st.composite
